@@ -1,5 +1,4 @@
 use crate::errors::CompressionError;
-use nintendo_lz::decompress_arr;
 use std::cmp::min;
 use std::num::Wrapping;
 
@@ -36,6 +35,58 @@ pub(crate) fn get_occurrence_length(
         }
     }
     (max_length as i32, disp)
+}
+
+/// Decompresses a bare LZ10 / LZ11 stream.
+/// Returns `None` if the stream is truncated, has an unknown type byte,
+/// or contains a back-reference that points before the start of the output.
+pub(crate) fn decompress_lz(bytes: &[u8]) -> Option<Vec<u8>> {
+    let mut input = bytes.iter().map(|b| *b as usize);
+    let lz11 = match input.next()? {
+        0x10 => false,
+        0x11 => true,
+        _ => return None,
+    };
+    let mut size = input.next()? | input.next()? << 8 | input.next()? << 16;
+    if size == 0 && lz11 {
+        size = input.next()? | input.next()? << 8 | input.next()? << 16 | input.next()? << 24;
+    }
+    let mut out: Vec<u8> = Vec::new();
+    while out.len() < size {
+        let flags = input.next()?;
+        for bit in (0..8).rev() {
+            if out.len() >= size {
+                break;
+            }
+            if (flags >> bit) & 1 == 0 {
+                out.push(input.next()? as u8);
+                continue;
+            }
+            let b0 = input.next()?;
+            let b1 = input.next()?;
+            let (length, disp) = if !lz11 {
+                ((b0 >> 4) + 3, (b0 & 15) << 8 | b1)
+            } else if b0 >> 4 > 1 {
+                ((b0 >> 4) + 1, (b0 & 15) << 8 | b1)
+            } else if b0 >> 4 == 0 {
+                let b2 = input.next()?;
+                (((b0 & 15) << 4 | b1 >> 4) + 0x11, (b1 & 15) << 8 | b2)
+            } else {
+                let b2 = input.next()?;
+                let b3 = input.next()?;
+                (((b0 & 15) << 12 | b1 << 4 | b2 >> 4) + 0x111, (b2 & 15) << 8 | b3)
+            };
+            if disp >= out.len() {
+                return None;
+            }
+            let start = out.len() - disp - 1;
+            for i in start..start + length {
+                let value = out[i];
+                out.push(value);
+            }
+        }
+    }
+    Some(out)
 }
 
 // Based on https://github.com/VelouriasMoon/FE3D/blob/main/FE3D/LZ13.cs
@@ -184,9 +235,9 @@ impl LZ13CompressionFormat {
         } else {
             let truncated_input = if bytes[0] == 0x13 { &bytes[4..] } else { bytes };
 
-            match decompress_arr(truncated_input) {
-                Ok(decompressed_data) => Ok(decompressed_data),
-                Err(_) => Err(CompressionError::InvalidInput("LZ13".to_string())),
+            match decompress_lz(truncated_input) {
+                Some(decompressed_data) => Ok(decompressed_data),
+                None => Err(CompressionError::InvalidInput("LZ13".to_string())),
             }
         }
     }
